@@ -321,7 +321,16 @@ func (e *Enc) isImmutableGlobal(gl *ssa.Global) bool {
 func (e *Enc) globalPtr(gl *ssa.Global) *Val {
 	key := e.globalKey(gl)
 	pt := gl.Type().(*types.Pointer).Elem()
-	return &Val{T: "0", S: "Int", GoT: gl.Type(), Loc: &Loc{Kind: locGlobal, Comp: "Gv_" + san(key), CS: e.sortOf(pt), GoT: pt, Field: key}}
+	return &Val{T: "(- 0 " + fmt.Sprint(1000+e.globalID(key)) + ")", S: "Int", GoT: gl.Type(), Src: key, Loc: &Loc{Kind: locGlobal, Comp: "Gv_" + san(key), CS: e.sortOf(pt), GoT: pt, Field: key}}
+}
+
+func (e *Enc) globalID(key string) int {
+	id, ok := e.g.globIDs[key]
+	if !ok {
+		id = len(e.g.globIDs) + 1
+		e.g.globIDs[key] = id
+	}
+	return id
 }
 
 // errConst: immutable error global -> distinct non-nil interface constant
